@@ -127,3 +127,183 @@ func Hostile(b []byte) bool {
 	}
 	return false
 }
+
+// ---------- structural edits (need the value boundaries) ----------
+
+// ArrHdr: one array header inside a well-formed msgpack value.
+type ArrHdr struct {
+	Pos, HdrLen, Count, End, Depth int // End: offset just past the array's last element
+}
+
+// walk returns the end offset of the value starting at pos (or -1) and collects array headers.
+func walk(b []byte, pos, depth int, out *[]ArrHdr) int {
+	if pos >= len(b) {
+		return -1
+	}
+	c := b[pos]
+	need := func(n int) int {
+		if pos+n > len(b) {
+			return -1
+		}
+		return pos + n
+	}
+	elems := func(start, n int, isArr bool, hdrLen int) int {
+		p := start
+		for i := 0; i < n; i++ {
+			p = walk(b, p, depth+1, out)
+			if p < 0 {
+				return -1
+			}
+		}
+		if isArr {
+			*out = append(*out, ArrHdr{pos, hdrLen, n, p, depth})
+		}
+		return p
+	}
+	switch {
+	case c <= 0x7f || c >= 0xe0 || c == 0xc0 || c == 0xc2 || c == 0xc3:
+		return pos + 1
+	case c >= 0x80 && c <= 0x8f:
+		return elems(pos+1, 2*int(c&0x0f), false, 1)
+	case c >= 0x90 && c <= 0x9f:
+		return elems(pos+1, int(c&0x0f), true, 1)
+	case c >= 0xa0 && c <= 0xbf:
+		return need(1 + int(c&0x1f))
+	}
+	u16 := func() int {
+		if pos+3 > len(b) {
+			return -1
+		}
+		return int(binary.BigEndian.Uint16(b[pos+1:]))
+	}
+	u32 := func() int {
+		if pos+5 > len(b) {
+			return -1
+		}
+		return int(binary.BigEndian.Uint32(b[pos+1:]))
+	}
+	switch c {
+	case 0xc4, 0xd9:
+		if pos+2 > len(b) {
+			return -1
+		}
+		return need(2 + int(b[pos+1]))
+	case 0xc5, 0xda:
+		if n := u16(); n >= 0 {
+			return need(3 + n)
+		}
+	case 0xc6, 0xdb:
+		if n := u32(); n >= 0 && n < 1<<24 {
+			return need(5 + n)
+		}
+	case 0xc7:
+		if pos+2 > len(b) {
+			return -1
+		}
+		return need(3 + int(b[pos+1]))
+	case 0xc8:
+		if n := u16(); n >= 0 {
+			return need(4 + n)
+		}
+	case 0xc9:
+		if n := u32(); n >= 0 && n < 1<<24 {
+			return need(6 + n)
+		}
+	case 0xca, 0xce, 0xd2:
+		return need(5)
+	case 0xcb, 0xcf, 0xd3:
+		return need(9)
+	case 0xcc, 0xd0:
+		return need(2)
+	case 0xcd, 0xd1:
+		return need(3)
+	case 0xd4:
+		return need(3)
+	case 0xd5:
+		return need(4)
+	case 0xd6:
+		return need(6)
+	case 0xd7:
+		return need(10)
+	case 0xd8:
+		return need(18)
+	case 0xdc:
+		if n := u16(); n >= 0 {
+			return elems(pos+3, n, true, 3)
+		}
+	case 0xdd:
+		if n := u32(); n >= 0 && n < 1<<20 {
+			return elems(pos+5, n, true, 5)
+		}
+	case 0xde:
+		if n := u16(); n >= 0 {
+			return elems(pos+3, 2*n, false, 3)
+		}
+	case 0xdf:
+		if n := u32(); n >= 0 && n < 1<<20 {
+			return elems(pos+5, 2*n, false, 5)
+		}
+	}
+	return -1
+}
+
+// Arrays lists the array headers of the first value of b (nil when b is not well-formed).
+func Arrays(b []byte) []ArrHdr {
+	var out []ArrHdr
+	if walk(b, 0, 0, &out) < 0 {
+		return nil
+	}
+	return out
+}
+
+// NestedArity tampers with the arity of an array INSIDE a well-formed value (an entry of a
+// Forward message, the entry list, an array inside a record): one element more or fewer, either
+// consistently (an element is appended/nothing removed but the count lowered) or in the header
+// only.  The result is labelled; when no nested array exists the input is returned as "same".
+func NestedArity(r *rand.Rand, in []byte) ([]byte, string) {
+	var nested []ArrHdr
+	for _, h := range Arrays(in) {
+		if h.Depth > 0 {
+			nested = append(nested, h)
+		}
+	}
+	if len(nested) == 0 {
+		return append([]byte{}, in...), "same"
+	}
+	h := nested[r.Intn(len(nested))]
+	if r.Intn(2) == 0 { // prefer entries: the deepest arrays of small count
+		for _, x := range nested {
+			if x.Count == 2 && x.Depth == 2 && r.Intn(3) != 0 {
+				h = x
+			}
+		}
+	}
+	setCount := func(b []byte, n int) []byte { // rewrite the header at h.Pos with count n (same header class when it fits)
+		var hdr []byte
+		switch {
+		case h.HdrLen == 1 && n <= 15:
+			hdr = []byte{0x90 | byte(n)}
+		case h.HdrLen <= 3 && n < 1<<16:
+			hdr = binary.BigEndian.AppendUint16([]byte{0xdc}, uint16(n))
+		default:
+			hdr = binary.BigEndian.AppendUint32([]byte{0xdd}, uint32(n))
+		}
+		return append(append(append([]byte{}, b[:h.Pos]...), hdr...), b[h.Pos+h.HdrLen:]...)
+	}
+	extra := [][]byte{{0xc0}, {0x80}, {0x81, 0xa5, 'c', 'h', 'u', 'n', 'k', 0xa1, 'X'}, {0x01}, {0xa1, 'z'}}[r.Intn(5)]
+	switch r.Intn(4) {
+	case 0: // one more element, really there
+		b := append(append(append([]byte{}, in[:h.End]...), extra...), in[h.End:]...)
+		return setCount(b, h.Count+1), "nested-arity+elem"
+	case 1: // header says one more, nothing added
+		return setCount(in, h.Count+1), "nested-arity+1"
+	case 2: // header says one fewer, nothing removed
+		if h.Count == 0 {
+			return append([]byte{}, in...), "same"
+		}
+		return setCount(in, h.Count-1), "nested-arity-1"
+	default: // two more elements, really there
+		b := append(append(append(append([]byte{}, in[:h.End]...), extra...), 0xc0), in[h.End:]...)
+		return setCount(b, h.Count+2), "nested-arity+2elem"
+	}
+}
